@@ -8,6 +8,7 @@ KindsAll == { K("int32", TRUE, TRUE, FALSE), K("int64", TRUE, TRUE, FALSE), K("d
               K("int16", TRUE, TRUE, FALSE), K("uint64", TRUE, FALSE, FALSE), K("int96", FALSE, FALSE, FALSE),
               K("flba", TRUE, FALSE, FALSE), K("time_ms", TRUE, FALSE, FALSE), K("decimal32", TRUE, FALSE, FALSE),
               K("decimal64", TRUE, FALSE, FALSE), K("decimal_ba", TRUE, FALSE, FALSE), K("decimal_flba", TRUE, FALSE, FALSE),
+              K("decimal_flba9", TRUE, FALSE, FALSE), K("decimal_flba16", TRUE, FALSE, FALSE),
               K("time_us", TRUE, FALSE, FALSE), K("int8", TRUE, FALSE, FALSE), K("uint16", TRUE, FALSE, FALSE),
               K("json", TRUE, FALSE, FALSE), K("ts_ns_logical", TRUE, FALSE, FALSE) }
 KindsCore == {k \in KindsAll : k.name \in {"int32", "int64", "double", "utf8", "bool"}}
